@@ -67,6 +67,13 @@ Theorem C13_enums_numeric : forall n d : Z, (0 < d)%Z -> (0 <= n <= d)%Z ->
 Proof. exact urgency_num_range. Qed.
 Print Assumptions C13_enums_numeric.
 
+(** environment.Script._verify (regenerated: which [re] function on which
+    pattern) is what the model's [wordy] was written against: an env.sources
+    line is usable iff it CONTAINS a word character. *)
+Theorem C13_script_form : script_verify_form = script_form_expected.
+Proof. exact script_form_ok. Qed.
+Print Assumptions C13_script_form.
+
 (** The monitor holds on the model for every document that does not repeat a
     key: never Internal; accepted => the loaded document breaks no documented
     rule ([malformed] = schema violation at any depth, duplicate step names,
